@@ -91,6 +91,9 @@ def analyse(aut, kind, mem_vars, iterates=None):
         return out
     envv, sysv = list(aut.varlist['env']), [v for v in aut.varlist['sys']]
     xb, yb, mb = bits(envv), bits(sysv), bits(mem_vars)
+    # a memory bit that IS a bit of a specification variable (same name, hence
+    # the same BDD variable) is one coordinate of the state, not two
+    mb = [b for b in mb if b not in xb + yb]
     xpb, ypb, mpb = [b + "'" for b in xb], [b + "'" for b in yb], [b + "'" for b in mb]
     state_bits = xb + yb + mb
     act_bits = state_bits + xpb + ypb + mpb
@@ -113,15 +116,16 @@ def analyse(aut, kind, mem_vars, iterates=None):
         succ.setdefault(s, []).append(t)
     fails = list()
     ranges = list()
-    off = 0
+    idx = {b: i for i, b in enumerate(state_bits)}
     for v in mem_vars:
-        w = len(bits([v]))
         lo, hi = aut.vars[v]['dom']
-        ranges.append((off, w, lo, hi, v))
-        off += w
+        ranges.append(([idx[b] for b in bits([v])], lo, hi, v))
 
-    def mem_ok(m):
-        return all(lo <= _int_of(m[o:o + w]) <= hi for o, w, lo, hi, _ in ranges)
+    def mem_val(st, pos):
+        return _int_of(tuple(st[i] for i in pos))
+
+    def mem_ok(st):
+        return all(lo <= mem_val(st, pos) <= hi for pos, lo, hi, _ in ranges)
 
     def base_of(s, t):
         return s[:nx + ny] + t[:nx + ny]
@@ -139,7 +143,7 @@ def analyse(aut, kind, mem_vars, iterates=None):
             if b not in S:
                 fails.append(dict(name='closed loop: a reachable allowed step violates the specified component action',
                                   state=str(s), next=str(t)))
-            if not mem_ok(t[nx + ny:]):
+            if not mem_ok(t):
                 fails.append(dict(name='closed loop: memory variable leaves its declared range',
                                   state=str(s), next=str(t)))
             outs.append(t)
@@ -178,10 +182,9 @@ def analyse(aut, kind, mem_vars, iterates=None):
                 # a persistence index k (chosen in a higher layer) but lies in a
                 # lower layer t whose cycle set Y[t][k] does not contain it
                 zk_, yki_ = iterates
-                o = 0
-                for (oo, ww, lo, hi, vv) in ranges:
+                for (pos, lo, hi, vv) in ranges:
                     if vv == '_hold':
-                        wv = _int_of(s[nx + ny + oo: nx + ny + oo + ww])
+                        wv = mem_val(s, pos)
                 none = len(aut.win['<>[]'])
                 ps = s[:nx + ny]
                 layer = next((t for t, zt in enumerate(zk_) if ps in zt), None)
@@ -198,7 +201,7 @@ def analyse(aut, kind, mem_vars, iterates=None):
         if len(fails) > 6:
             return fails, len(reach)
     for s in init:
-        if not mem_ok(s[nx + ny:]):
+        if not mem_ok(s):
             fails.append(dict(name='closed loop: initial memory outside its range', state=str(s)))
     # liveness of reachable cycles
     import networkx as nx_
@@ -341,6 +344,87 @@ def monitor(kind, seed, n_games, backend='cudd'):
         return dict(records=[], stats=dict(), functions={}, bounded=dict(
             evaluations=n, implementations_built=built, reachable_states=reach_total,
             samples=samples, failures=fails, kind=kind, backend=backend))
+    return run
+
+
+def rebuild_same_automaton(kind, seed, n_games, backend='cudd'):
+    """BOUNDED: an implementation is constructed, then the liveness predicates
+    of the SAME automaton are replaced by lists of other lengths (more or fewer
+    recurrence goals / persistence sets), the game is solved and implemented
+    again.  A second construction that is refused (ValueError/AssertionError,
+    e.g. the memory is declared already with another range) is not a
+    construction; one that returns is analysed like any other: the closed
+    loop over the memory AS DECLARED NOW must satisfy the property."""
+    def run():
+        rnd = random.Random(seed)
+        fails = list()
+        n = built = refused = 0
+        shapes_ = [(dict(x='bool'), dict(y='bool')),
+                   (dict(x='bool'), dict(y=(0, 2))),
+                   (dict(), dict(y=(0, 3))),
+                   # legal names of specification variables that look like bits
+                   # of the memory that the construction adds
+                   (dict(x='bool'), dict(_goal_0='bool')),
+                   (dict(x='bool'), dict(y='bool', _goal_0='bool')),
+                   (dict(), dict(y=(0, 2), _goal_0='bool')),
+                   (dict(_goal_1='bool'), dict(y='bool')),
+                   (dict(), dict(_hold_0='bool', y='bool'))]
+        qinits = [r'\A \A', r'\E \E', r'\A \E', r'\E \A']
+        counts = [(1, 1), (1, 2), (2, 1), (2, 2), (1, 3), (3, 1), (1, 4), (1, 5), (4, 1)]
+        while n < n_games:
+            n += 1
+            de, ds = rnd.choice(shapes_)
+            moore, plus_one = rnd.choice([(True, True), (True, False), (False, True), (False, False)])
+            qinit = rnd.choice(qinits)
+            seq = [rnd.choice(counts[:4]), rnd.choice(counts), rnd.choice(counts)]
+            aut = None
+            for round_, (nh, ng) in enumerate(seq):
+                fresh = make_game(rnd, de, ds, moore, plus_one, qinit, nh, ng, backend, dense=0.95)
+                if aut is None:
+                    aut = fresh
+                else:
+                    cp = lambda u: fresh.bdd.copy(u, aut.bdd)
+                    aut.win['<>[]'] = [cp(u) for u in fresh.win['<>[]']]
+                    aut.win['[]<>'] = [cp(u) for u in fresh.win['[]<>']]
+                desc = dict(env=de, sys=ds, moore=moore, plus_one=plus_one, qinit=qinit,
+                            liveness_counts_in_turn=str(seq[:round_ + 1]), game_no=n, seed=seed)
+                try:
+                    with contextlib.redirect_stdout(io.StringIO()):
+                        if kind == 'streett':
+                            z, yij, xijk = gr1.solve_streett_game(aut)
+                            if not gr1.is_realizable(z, aut) or z == aut.false:
+                                break
+                            gr1.make_streett_transducer(z, yij, xijk, aut)
+                            mem = ['_goal']
+                        else:
+                            zk, yki, xkijr = gr1.solve_rabin_game(aut)
+                            if not gr1.is_realizable(zk[-1], aut) or zk[-1] == aut.false:
+                                break
+                            gr1.make_rabin_transducer(zk, yki, xkijr, aut)
+                            mem = ['_hold', '_goal']
+                except (AssertionError, ValueError) as e:
+                    # a refused construction is not a construction that succeeded
+                    refused += 1
+                    break
+                built += 1
+                its = None
+                if kind == 'rabin':
+                    sb = list()
+                    for v in list(aut.varlist['env']) + list(aut.varlist['sys']):
+                        d = aut.vars[v]
+                        sb += [v] if d['type'] == 'bool' else list(d['bitnames'])
+                    its = ([_tt(aut, zt, sb) for zt in zk],
+                           [[_tt(aut, y, sb) for y in yi] for yi in yki])
+                f, nr = analyse(aut, kind, mem, its)
+                for x in f[:3]:
+                    x['game'] = desc
+                    x['name'] = x.get('name', '') + ' (implementation constructed again on the same automaton after its liveness lists changed length)' * (round_ > 0)
+                    fails.append(x)
+                if f:
+                    break
+        return dict(records=[], stats=dict(), functions={}, bounded=dict(
+            evaluations=n, implementations_built=built, second_constructions_refused=refused,
+            failures=fails[:8], kind=kind, backend=backend))
     return run
 
 
